@@ -369,7 +369,7 @@ func (g *gen) messageDef(name string, top bool) *Def {
 		default:
 			idx = uint8(i + 1)
 		}
-		if i == 0 && g.r.Chance(1, 60) {
+		if i == 0 && g.r.Chance(1, 400) {
 			// index 0 is the terminator byte on the wire; whether the compiler accepts such a
 			// message is its business, and what it accepts has to work
 			idx = 0
